@@ -158,6 +158,9 @@ Section Inv.
       exists rest. rewrite map_app. cbn. rewrite <- app_assoc. cbn. split; [exact E|first [exact R|intro; apply R; discriminate]].
     - (* SWriteErr *)
       exists (i :: rest). split; [exact E|]. intro C. now contradiction C.
+    - (* SExit with a command in hand, the connection being lost: the command is dropped *)
+      eexists. split; [exact E|]. intro C. now contradiction C.
+    - eexists. split; [exact E|]. intro C. now contradiction C.
   Qed.
 
   Lemma inv01_init cap : inv01q (init cap) /\ inv01w (init cap).
